@@ -980,6 +980,10 @@ def partition_flags(fn, max_flags=4, max_blocks=900):
 
 def _partition_one(fn, name, max_blocks):
     def is_flag_read(x):
+        # the flag is never address-taken and plain-variable store targets are not passed through sub():
+        # every occurrence of the variable is a read
+        if isinstance(x, dict) and x.get('k') == 'var' and x['name'] == name:
+            return True
         return isinstance(x, dict) and x.get('k') == 'load' and isinstance(x.get('e'), dict) \
             and x['e'].get('k') == 'var' and x['e']['name'] == name
 
@@ -988,11 +992,50 @@ def _partition_one(fn, name, max_blocks):
             return x
         return fold(subst(x, lambda nd: {'k': 'int', 'v': v} if is_flag_read(nd) else None))
 
+    # liveness of the flag: where it is dead its value is forgotten, so that only
+    # the region between its assignments and its last test is split
+    def reads_flag(x):
+        return any(y.get('k') == 'var' and y['name'] == name for y in walk(x))
+
+    def is_def(e):
+        return e['ev'] == 'store' and strip(e['lhs']).get('k') == 'var' and strip(e['lhs'])['name'] == name
+
+    live_in = {b: False for b in fn.blocks}
+    changed = True
+    while changed:
+        changed = False
+        for b, blk in fn.blocks.items():
+            lv = any(live_in.get(s, False) for s in blk.succ if s is not None)
+            if blk.term and blk.term.get('cond') is not None and reads_flag(blk.term['cond']):
+                lv = True
+            for e in reversed(blk.events):
+                if is_def(e):
+                    lv = reads_flag(e.get('rhs', {}))
+                elif any(reads_flag(x) for k_, x in e.items() if isinstance(x, (dict, list))):
+                    lv = True
+            if lv != live_in[b]:
+                live_in[b] = lv
+                changed = True
+
+    def live_at(b, i):
+        blk = fn.blocks[b]
+        lv = any(live_in.get(s, False) for s in blk.succ if s is not None)
+        if blk.term and blk.term.get('cond') is not None and reads_flag(blk.term['cond']):
+            lv = True
+        for e in reversed(blk.events[i:]):
+            if is_def(e):
+                lv = reads_flag(e.get('rhs', {}))
+            elif any(reads_flag(x) for k_, x in e.items() if isinstance(x, (dict, list))):
+                lv = True
+        return lv
+
     newblocks = {}
     ids = {}
     work = []
 
     def node(b, i, v, pre=None):
+        if v is not None and pre is None and not live_at(b, i):
+            v = None
         key = (b, i, v) if pre is None else (b, i, v, id(pre))
         if b == fn.exit:
             key = (b, 0, None)
@@ -1475,6 +1518,15 @@ class Inliner:
             for i, e in enumerate(b.events):
                 e['_b'] = b.id
                 e['_i'] = i
+        # the same normalisations as for source functions, now across the inlined call boundaries:
+        # boolean helper results ($retN assigned constants, then tested) and cached values
+        if os.environ.get('IVY_NO_FLAGS') != '1':
+            g.flags = partition_flags(g)
+        if os.environ.get('IVY_NO_COPYPROP') != '1':
+            try:
+                copy_propagate(g)
+            except AnalysisBroken:
+                pass
         if self.prune:
             from .analyses import prune_infeasible
             g.pruned_edges = prune_infeasible(g)
